@@ -1,6 +1,9 @@
 // C12: independent generators on different threads (DESIGN.md C12).
 //   c12_threads stress <seed> <nthreads> <gadir|->      (TSan build: data races; any build: equality with sequential runs)
 //   c12_threads sched <calls_per_thread 1|2>             (plain build + hooks: deterministic enumeration of interleavings)
+//   c12_threads firstuse <seed> <nthreads> <event file>   (TSan build, fresh process: every thread's FIRST library call is a different
+//                                                         entry point - stand-alone gA sampler on the shipped table, double-beta and background
+//                                                         generators, catalogue accessors, resource lookup, event reader - released together)
 //   c12_threads sweep <seed> <nthreads> <specfile> <nev> (TSan build: every thread walks ALL listed configurations - every published
 //                                                         background name and a sample of double-beta cells - so that any static storage
 //                                                         the library writes while generating is written by several threads)
@@ -24,9 +27,14 @@
 #include <gsl/gsl_errno.h>
 #include <gsl/gsl_integration.h>
 
+#include <bxdecay0/bb_utils.h>
+#include <bxdecay0/dbd_gA.h>
 #include <bxdecay0/decay0_generator.h>
 #include <bxdecay0/event.h>
+#include <bxdecay0/event_reader.h>
 #include <bxdecay0/gauss.h>
+#include <bxdecay0/resource.h>
+#include <bxdecay0/version.h>
 
 #include "diffcore_port.h"
 
@@ -464,10 +472,134 @@ static int run_sweep(uint64_t seed, int nthreads, const char * specfile, int nev
   return 0;
 }
 
+// ------------------------------------------------------------------ firstuse: lazily initialised library state hit concurrently
+static int run_firstuse(uint64_t seed, int nthreads, const char * evfile)
+{
+  gsl_set_error_handler(sentinel_handler);
+  unsetenv("BXDECAY0_DBD_GA_DATA_DIR"); // the stand-alone gA sampler then looks its table up through the resource directory
+  typedef std::function<uint64_t(uint64_t)> Entry;
+  std::vector<std::pair<std::string, Entry>> entries;
+  auto gen_entry = [](bool dbd, const char * name, int mode) {
+    return [dbd, name, mode](uint64_t sd) -> uint64_t {
+      decay0_generator g;
+      g.set_decay_category(dbd ? decay0_generator::DECAY_CATEGORY_DBD : decay0_generator::DECAY_CATEGORY_BACKGROUND);
+      g.set_decay_isotope(name);
+      if (dbd) {
+        g.set_decay_dbd_level(0);
+        g.set_decay_dbd_mode((bxdecay0::dbd_mode_type)mode);
+      }
+      Tape t(sd, 17);
+      g.initialize(t);
+      bxdecay0::event e;
+      uint64_t h = 1469598103934665603ULL;
+      for (int i = 0; i < 20; i++) {
+        g.shoot(t, e);
+        h = (h ^ hash_str(event_json(e))) * 1099511628211ULL;
+      }
+      return h;
+    };
+  };
+  entries.push_back({"dbd_gA stand-alone (shipped Test table, rejection)", [](uint64_t sd) -> uint64_t {
+                       bxdecay0::dbd_gA g;
+                       g.set_dataset_version(".");
+                       g.set_nuclide("Test");
+                       g.set_process(bxdecay0::dbd_gA::PROCESS_G0);
+                       g.set_shooting(bxdecay0::dbd_gA::SHOOTING_REJECTION);
+                       g.initialize();
+                       Tape t(sd, 18);
+                       t.cap = 200000;
+                       uint64_t h = 1469598103934665603ULL;
+                       for (int i = 0; i < 20; i++) {
+                         double e1 = 0, e2 = 0;
+                         g.shoot_e1_e2(t, e1, e2);
+                         h = (h ^ hash_str(fmt("%.17g %.17g", e1, e2))) * 1099511628211ULL;
+                       }
+                       return h;
+                     }});
+  entries.push_back({"decay0_generator Mo100 0nubb", gen_entry(true, "Mo100", 1)});
+  entries.push_back({"decay0_generator Co60", gen_entry(false, "Co60", 0)});
+  entries.push_back({"decay0_generator Zn70 2nubb (quadrature)", gen_entry(true, "Zn70", 4)});
+  entries.push_back({"catalogue accessors", [](uint64_t) -> uint64_t {
+                       uint64_t h = 0;
+                       for (auto & x : bxdecay0::dbd_isotopes()) h += hash_str(x);
+                       for (auto & x : bxdecay0::background_isotopes()) h += hash_str(x);
+                       for (auto & kv : bxdecay0::dbd_modes()) h += hash_str(kv.second.unique_label);
+                       return h;
+                     }});
+  entries.push_back({"resource lookup", [](uint64_t) -> uint64_t {
+                       return hash_str(bxdecay0::get_resource("description/dbd_isotopes.lis", true).substr(0, 0)) + bxdecay0::get_resource_dir(true).size() * 0;
+                     }});
+  entries.push_back({"event_reader", [evfile](uint64_t) -> uint64_t {
+                       bxdecay0::event_reader::config_type cfg;
+                       cfg.event_files.push_back(evfile);
+                       bxdecay0::event_reader rd(cfg);
+                       uint64_t h = 0;
+                       while (rd.has_next_event()) {
+                         bxdecay0::event e;
+                         rd.load_next_event(e);
+                         h = (h ^ hash_str(event_json(e))) * 1099511628211ULL;
+                       }
+                       return h;
+                     }});
+  const int ne = (int)entries.size();
+  std::atomic<int> ready{0};
+  std::atomic<bool> go{false};
+  std::vector<std::vector<uint64_t>> got(nthreads, std::vector<uint64_t>(ne, 0));
+  std::vector<std::vector<std::string>> goterr(nthreads, std::vector<std::string>(ne));
+  std::vector<std::thread> th;
+  for (int t = 0; t < nthreads; t++) {
+    th.emplace_back([&, t] {
+      t_id = t;
+      ready++;
+      while (!go.load()) std::this_thread::yield();
+      for (int k = 0; k < ne; k++) {
+        int j = (int)((seed + (uint64_t)t * 3 + (uint64_t)k) % (uint64_t)ne); // the first call of each thread is a different entry point
+        try {
+          got[t][j] = entries[j].second(seed);
+        } catch (std::exception & x) {
+          goterr[t][j] = x.what();
+        }
+      }
+    });
+  }
+  while (ready.load() < nthreads) std::this_thread::yield();
+  go = true;
+  for (auto & x : th) x.join();
+  std::map<std::string, Mismatch> mm;
+  long streams = 0;
+  // sequential truth, afterwards
+  for (int j = 0; j < ne; j++) {
+    uint64_t want = 0;
+    std::string werr;
+    try {
+      want = entries[j].second(seed);
+    } catch (std::exception & x) {
+      werr = x.what();
+    }
+    for (int t = 0; t < nthreads; t++) {
+      streams++;
+      if (got[t][j] != want || goterr[t][j] != werr) {
+        std::string key = "firstuse|differs-from-sequential|" + entries[j].first;
+        Mismatch & x = mm[key];
+        if (x.count++ == 0) {
+          x.key = key;
+          x.detail = fmt("%s: result on thread %d (first calls concurrent) differs from the sequential one (errors '%s' vs '%s')", entries[j].first.c_str(), t,
+                         goterr[t][j].substr(0, 100).c_str(), werr.substr(0, 100).c_str());
+        }
+      }
+    }
+  }
+  fprintf(OUT, "{\"mode\":\"firstuse\",\"threads\":%d,\"entries\":%d,\"streams\":%ld,", nthreads, ne, streams);
+  emit_mismatches(OUT, "mismatches", mm);
+  fprintf(OUT, "}\n");
+  return 0;
+}
+
 int main(int argc, char ** argv)
 {
   if (argc < 3) return 2;
   std::string mode = argv[1];
+  if (mode == "firstuse" && argc >= 5) return run_firstuse(strtoull(argv[2], 0, 10), atoi(argv[3]), argv[4]);
   if (mode == "sweep" && argc >= 6) return run_sweep(strtoull(argv[2], 0, 10), atoi(argv[3]), argv[4], atoi(argv[5]));
   if (mode == "sched") return run_sched(atoi(argv[2]));
   if (mode == "stress") {
